@@ -11,6 +11,7 @@
 //! re-evaluates the rule on every line.  Nothing is judged here.
 //!
 //! usage: c16_driver <out.ndjson> <quick|thorough>      env VERIF_SEED
+//!        c16_driver --replay <recorded.ndjson> <out.ndjson>
 use std::cell::{Cell, RefCell};
 use std::num::NonZeroUsize;
 
@@ -79,6 +80,7 @@ enum Oracle {
     Tight(bool),    // largest count that fits (false) / smallest that does not (true), capped
     Random(u64),    // seeded: None or 0..=5
     Flip,           // huge, None, then stub
+    Script(Vec<i64>), // replay of logged answers (-1 = None; None once exhausted)
 }
 
 #[derive(Clone, Debug)]
@@ -146,6 +148,10 @@ fn call<R: RngCore + CryptoRng>(inp: &Input, nc: usize, script: Option<&[i64]>, 
                     let mut g = ChaCha20Rng::seed_from_u64(s.wrapping_mul(0x9e3779b97f4a7c15).wrapping_add(i as u64));
                     if g.gen_range(0..10) < 3 { None } else { Some(g.gen_range(0..=5)) }
                 }
+                Oracle::Script(a) => match a.get(i) {
+                    Some(&x) if x >= 0 => Some(x as usize),
+                    _ => None,
+                },
                 Oracle::Flip => match i % 3 {
                     0 => Some(1_000_000),
                     1 => None,
@@ -324,9 +330,68 @@ fn denoms(min_exp: u32, max: u64) -> Vec<u64> {
     v
 }
 
+/// every line carries its 1-based position, so a dropped line is noticed by the trace specification
+fn put(w: &mut NdjsonWriter, mut ev: Value) {
+    ev["seq"] = json!(w.1 + 1);
+    w.emit(&ev);
+}
+
+fn from_dg(v: &Value) -> u64 {
+    v.as_array().expect("digits").iter().rev().fold(0u64, |acc, d| acc * 10 + d.as_u64().expect("digit"))
+}
+fn from_dgs(v: &Value) -> Vec<u64> {
+    v.as_array().expect("array").iter().map(from_dg).collect()
+}
+
+/// Re-executes the calls recorded in a trace (replay of a violation): same arguments, the logged
+/// oracle answers as a script; writes fresh lines.
+fn replay(input: &str, out: &str) {
+    let mut w = NdjsonWriter::create(out);
+    for (i, r) in h_tx::util::read_ndjson(input).iter().enumerate() {
+        let ev = match r["a"].as_str().unwrap_or("") {
+            "plan" => {
+                let custom = if r["via"] == "new" {
+                    Some((r["minExp"].as_u64().unwrap() as u32, from_dg(&r["maxDenom"])))
+                } else {
+                    None
+                };
+                let script: Vec<i64> = r["answers"].as_array().unwrap().iter().map(|a| a.as_i64().unwrap()).collect();
+                let inp = Input {
+                    custom,
+                    cap: r["cap"].as_u64().unwrap() as usize,
+                    nc: r["nc"].as_u64().unwrap() as usize,
+                    total: from_dg(&r["total"]),
+                    buffer: from_dg(&r["buffer"]),
+                    fee: from_dg(&r["fee"]),
+                    oracle: Oracle::Script(script),
+                };
+                plan_event(&inp, i as u64 + 1)
+            }
+            "stored" => stored_event(
+                &from_dgs(&r["crossings"]),
+                from_dg(&r["buffer"]),
+                if r["changeNone"].as_bool().unwrap() { None } else { Some(from_dg(&r["change"])) },
+                from_dg(&r["prepFees"]),
+                from_dg(&r["totalInput"]),
+                from_dg(&r["migratable"]),
+            ),
+            "l125" => l125_event(from_dg(&r["hi"]), r["floorExp"].as_u64().unwrap() as u32),
+            "canon" => canon_event(from_dg(&r["v"])),
+            other => panic!("unknown record kind {other}"),
+        };
+        put(&mut w, ev);
+    }
+    let n = w.finish();
+    println!("{}", json!({"events": n}));
+}
+
 fn main() {
     quiet_panics();
     let args: Vec<String> = std::env::args().collect();
+    if args.get(1).map(|s| s == "--replay").unwrap_or(false) {
+        replay(&args[2], &args[3]);
+        return;
+    }
     let thorough = args.get(2).map(|s| s == "thorough").unwrap_or(false);
     let seed = seed_from_env();
     let mut g = ChaCha20Rng::seed_from_u64(seed ^ 0xC16);
@@ -405,6 +470,18 @@ fn main() {
                 }
             }
         }
+        // 1-2-5 values ABOVE the cap held as one note: not a denomination, so no exact-funding shortcut
+        if full {
+            for &d in &[2_000_000_000_000u64, 5_000_000_000_000, 10_000_000_000_000, 1_000_000_000_000_000, 2_000_000_000_000_000] {
+                for t in [d + buffer, d + buffer + fee] {
+                    for nc in [1usize, 2] {
+                        for o in oracles(&mut g, thorough) {
+                            inputs.push(Input { custom: None, cap: 64, nc, total: t, buffer, fee, oracle: o });
+                        }
+                    }
+                }
+            }
+        }
         // note-count fee steps and the cap: k notes of one denomination plus the assumed fees, +-1
         for &d in &[1_000_000u64, 2_000_000, 1_000_000_000_000] {
             for &k in &[1usize, 2, 13, 14, 15, 27, 28, 29, 42, 43, 50, 63, 64] {
@@ -476,7 +553,7 @@ fn main() {
     }
     for inp in &inputs {
         seq += 1;
-        w.emit(&plan_event(inp, seq));
+        put(&mut w, plan_event(inp, seq));
     }
 
     // ---------------------------------------------------------------- from_stored_parts
@@ -503,7 +580,7 @@ fn main() {
             cross.push(if j == pos { c } else { g.gen_range(0..=(MAX_MONEY - buffer)) });
         }
         let change = if g.gen_bool(0.3) { None } else { Some(g.gen_range(0..=MAX_MONEY)) };
-        w.emit(&stored_event(&cross, buffer, change, g.gen_range(0..=MAX_MONEY), g.gen_range(0..=MAX_MONEY), g.gen_range(0..=MAX_MONEY)));
+        put(&mut w, stored_event(&cross, buffer, change, g.gen_range(0..=MAX_MONEY), g.gen_range(0..=MAX_MONEY), g.gen_range(0..=MAX_MONEY)));
     }
 
     // ---------------------------------------------------------------- largest_one_two_five, is_canonical_denomination
@@ -523,7 +600,7 @@ fn main() {
         }
     }
     for (hi, fe) in his {
-        w.emit(&l125_event(hi, fe));
+        put(&mut w, l125_event(hi, fe));
     }
     let mut vs: Vec<u64> = vec![0, 1, 5, MAX_MONEY];
     for d in denoms(0, MAX_MONEY) {
@@ -538,7 +615,7 @@ fn main() {
     }
     for v in vs {
         assert!(v <= MAX_MONEY, "driver bug: not an amount");
-        w.emit(&canon_event(v));
+        put(&mut w, canon_event(v));
     }
     let n = w.finish();
     println!("{}", json!({"events": n, "plans": inputs.len()}));
